@@ -59,12 +59,32 @@ def _scaled_cartan(B, dvec):
     return [[2 * B[i][j] * dvec[i] / dvec[j] for j in range(n)] for i in range(n)]
 
 
+# degenerate (affine / infinite-dihedral) cosine forms: no diagonalising change of basis exists.  diagonalize=True must
+# not silently return matrices that violate the relations: the only acceptable outcomes are a GeometryError or matrices
+# that do satisfy the clauses.
+DEGENERATE = [X.sym_matrix(2, [0]), X.sym_matrix(3, [3, 3, 3]), X.sym_matrix(3, [2, 4, 4]), X.sym_matrix(3, [2, 3, 6]),
+              X.sym_matrix(3, [2, 2, 0]), X.sym_matrix(3, [2, 0, 0]), X.sym_matrix(4, [3, 2, 3, 3, 2, 3]),
+              X.sym_matrix(4, [4, 2, 2, 3, 2, 4]), X.sym_matrix(4, [2, 2, 0, 2, 2, 2])]
+
+
+def _degenerate(rng):
+    M = rng.choice(DEGENERATE)
+    n = len(M)
+    p = list(range(n))
+    rng.shuffle(p)
+    return [[(rng.choice(X.INF) if M[p[i]][p[j]] <= 0 else M[p[i]][p[j]]) if i < j else 0 for j in range(n)] for i in range(n)]
+
+
 def gen_case(rng, kinds=KINDS, ranks=(2, 3, 3, 4, 4, 5), finite=(2, 12)):
     HYP_RANKS = (3, 3, 4, 4, 5)
     """one group + one representation kind, mostly valid"""
     while True:
         kind = rng.choice(kinds)
         n = rng.choice(HYP_RANKS if kind == "hyp" else ranks)
+        if kind in ("diag", "canondiag", "hyp") and rng.random() < 0.12:
+            U = _degenerate(rng)
+            M = [[1 if i == j else (U[i][j] if i < j else U[j][i]) for j in range(len(U))] for i in range(len(U))]
+            return {"kind": kind, "spec": X.rand_spec(rng, M), "degenerate": True}
         if kind == "hyp":
             # need signature (n-1, 1), non-degenerate
             for _ in range(200):
@@ -88,6 +108,7 @@ def gen_case(rng, kinds=KINDS, ranks=(2, 3, 3, 4, 4, 5), finite=(2, 12)):
         Mx, names = X.expected_matrix_and_names(spec)
         if kind == "cartan":
             inp["dvec"] = [Q.qs(F(rng.randint(1, 6), rng.randint(1, 4))) for _ in range(n)]
+            inp["rename"] = rng.choice([None, None, "alpha", "alphanum"])
         if kind == "vinberg":
             par = []
             for i in range(n):
@@ -100,6 +121,14 @@ def gen_case(rng, kinds=KINDS, ranks=(2, 3, 3, 4, 4, 5), finite=(2, 12)):
 
 
 HYP_TRIPLES = X.hyperbolic_triples(12)
+
+
+def rep_names(inp):
+    """(Coxeter matrix, generator names of the representation) prescribed by the input"""
+    Mx, names = X.expected_matrix_and_names(inp["spec"])
+    if inp.get("rename"):
+        names = ["abcdefghijklmnopqrstuvwxyz"[i] if inp["rename"] == "alpha" else "s%d" % i for i in range(len(Mx))]
+    return Mx, names
 
 
 def build_rep(inp):
@@ -117,7 +146,10 @@ def build_rep(inp):
         d = [float(F(x)) for x in inp["dvec"]]
         C = np.array(_scaled_cartan(B.tolist(), d))
         extra["C"] = C
-        rep = G.cartan_representation(C)
+        if inp.get("rename"):
+            rep = G.cartan_representation(C, rename_generators=True, generator_style=inp["rename"])
+        else:
+            rep = G.cartan_representation(C)
     elif kind == "vinberg":
         n = len(names)
         if inp["pformat"] == "dict":
@@ -139,13 +171,20 @@ def build_rep(inp):
     else:
         raise ValueError(kind)
     # generators are looked up by the names the *input* prescribes (not by the library's own bookkeeping)
-    _, xnames = X.expected_matrix_and_names(inp["spec"])
+    _, xnames = rep_names(inp)
     gens = [np.asarray(rep.generators[g], dtype=float) for g in xnames]
     return G, names, rep, gens, extra
 
 
 def run_gens(inp):
-    G, names, rep, gens, extra = build_rep(inp)
+    try:
+        G, names, rep, gens, extra = build_rep(inp)
+    except Exception as e:
+        if type(e).__name__ == "GeometryError" and _REC.get("last") and inp["kind"] in ("diag", "hyp", "canondiag"):
+            # the repaired guard refused: hand the diagonalising pair to the model, which must refuse too
+            (W, Winv), order = _REC["last"]
+            return {"exc": "GeometryError", "W": np.asarray(W).tolist(), "Winv": np.asarray(Winv).tolist()}
+        raise
     out = {"M": np.asarray(G.coxeter_matrix).tolist(), "names": names,
            "B": np.asarray(G.bilinear_form(), dtype=float).tolist(),
            "gens": [g.tolist() for g in gens],
@@ -162,8 +201,23 @@ def _form_fields(M):
     return {"M": M, "cos": X.table_json(X.cos_table(M))}
 
 
-def lean_gens(inp, obs):
+def _degenerate_verdict(inp, obs, tags):
+    """for a degenerate form and diagonalize=True: ("skip", None) when the library refused with GeometryError,
+    ("fail", failure) for any other exception, ("check", None) when it returned matrices"""
     if "exc" in obs:
+        if obs["exc"] == "GeometryError":
+            return "skip", None
+        return "fail", {"expected": "GeometryError (degenerate form) or a representation", "observed": obs,
+                        "tags": {**tags, "exc": obs["exc"], "degenerate": True}, "property_failure": True}
+    return "check", None
+
+
+def lean_gens(inp, obs):
+    if obs.get("exc") == "GeometryError" and "W" in obs:
+        Mx, _ = X.expected_matrix_and_names(inp["spec"])
+        return [{"op": "c08.gens", "kind": "hyp", "n": len(Mx), "W": X.mat_json(obs["W"]), "Winv": X.mat_json(obs["Winv"]),
+                 **_form_fields(Mx)}]
+    if "exc" in obs or inp.get("degenerate"):
         return []
     Mx, names = X.expected_matrix_and_names(inp["spec"])
     n = len(Mx)
@@ -204,14 +258,22 @@ def _exp_keys(names):
 
 def judge_gens(inp, obs, lr):
     tags = {"kind": inp["kind"], "route": inp["spec"]["route"]}
+    if obs.get("exc") == "GeometryError" and "W" in obs:
+        # the guard Winv W = 1 (atol 1e-10) of the repaired code vs the model's diagGuard on the same pair
+        if not lr or lr[0].get("err") != "GeometryError":
+            return {"expected": {"model": lr[0] if lr else None}, "observed": "GeometryError raised by cartan_representation",
+                    "tags": {**tags, "what": "diag-guard"}}
+        return None
+    if inp.get("degenerate"):
+        return _degenerate_verdict(inp, obs, tags)[1]      # the relations oracle judges returned matrices
     if "exc" in obs:
         return {"expected": "a representation", "observed": obs, "tags": {**tags, "exc": obs["exc"]}, "property_failure": True}
     Mx, names = X.expected_matrix_and_names(inp["spec"])
     if obs["M"] != Mx or obs["names"] != names:
         return {"expected": {"M": Mx, "names": names}, "observed": {"M": obs["M"], "names": obs["names"]},
                 "tags": {**tags, "constructor": True}}
-    if obs["keys"] != _exp_keys(names):
-        return {"expected": _exp_keys(names), "observed": obs["keys"], "tags": {**tags, "generator_names": True}}
+    if obs["keys"] != _exp_keys(rep_names(inp)[1]):
+        return {"expected": _exp_keys(rep_names(inp)[1]), "observed": obs["keys"], "tags": {**tags, "generator_names": True}}
     for r in lr:
         if "err" in r:
             return {"expected": "model answer", "observed": r, "tags": {**tags, "driver_err": r["err"][:60]}}
@@ -250,7 +312,7 @@ def run_words(inp):
     G, names, rep, gens, extra = build_rep(inp)
     vals = []
     for w in inp["words"]:
-        v = X.rep_word(rep, names, w)
+        v = X.rep_word(rep, rep_names(inp)[1], w)
         if hasattr(v, "matrix"):     # HyperbolicRepresentation wraps into an Isometry (row-vector convention inside)
             v = np.asarray(v.matrix).swapaxes(-1, -2)
         vals.append(np.asarray(v, dtype=float).tolist())
@@ -267,6 +329,8 @@ def lean_words(inp, obs):
 
 def judge_words(inp, obs, lr):
     tags = {"kind": inp["kind"]}
+    if inp.get("degenerate") and "exc" in obs:
+        return _degenerate_verdict(inp, obs, tags)[1]
     if "exc" in obs:
         return {"expected": "word values", "observed": obs, "tags": {**tags, "exc": obs["exc"]}, "property_failure": True}
     for w, v, r in zip(inp["words"], obs["vals"], lr):
@@ -316,7 +380,7 @@ def run_rel(inp):
 
 
 def lean_rel(inp, obs):
-    if "exc" in obs:
+    if "exc" in obs or inp.get("degenerate"):
         return []
     n = len(obs["gens"])
     return [{"op": "c08.resid", "n": n, "M": obs["M"], "gens": [X.mat_json(g) for g in obs["gens"]]}]
@@ -325,6 +389,18 @@ def lean_rel(inp, obs):
 def judge_rel(inp, obs, lr):
     kind = inp["kind"]
     tags = {"kind": kind}
+    if inp.get("degenerate"):
+        what, fail = _degenerate_verdict(inp, obs, tags)
+        if what != "check":
+            return fail
+        # matrices were returned for a form that cannot be diagonalised: they must still satisfy the clauses
+        # (loose tolerance: the conjugation is ill conditioned)
+        tol = 1e-6 * obs["scale"] ** 2
+        if obs["invol"] > tol or obs["braid"] > tol or any(abs(d + 1) > 1e-5 for d in obs["dets"]):
+            return {"expected": "diagonalize=True on a degenerate cosine form: GeometryError, or matrices that satisfy s^2 = 1 and "
+                                "(s_i s_j)^m = 1", "observed": {"|s^2-1|": obs["invol"], "|(s_i s_j)^m-1|": obs["braid"], "dets": obs["dets"]},
+                    "tags": {**tags, "degenerate": True, "relation": "involution"}}
+        return None
     if "exc" in obs:
         return {"expected": "a representation", "observed": obs, "tags": {**tags, "exc": obs["exc"]}}
     if not lr or "err" in lr[0]:
@@ -448,6 +524,8 @@ def run_hyp(inp):
 
 
 def judge_hyp(inp, obs, lr):
+    if inp.get("degenerate"):
+        return _degenerate_verdict(inp, obs, {"kind": "hyp"})[1]     # O(d,1) is claimed for signature (d,1) only
     if "exc" in obs:
         return {"expected": "hyperbolic representation", "observed": obs, "tags": {"exc": obs["exc"]}}
     if obs["iso"] > 1e-8:
